@@ -56,6 +56,8 @@ def run(ctx: Ctx) -> None:
     effects.rule_noise_off(ctx)
     effects.rule_noise_factor(ctx)
     effects.rule_noise_order(ctx)
+    from .c13 import rule_unwrap_order
+    rule_unwrap_order(ctx)   # where the wrapper-level noise lands relative to the composite gate (before / after)
     hooks.rule_pair_noise_applied(ctx)
     hooks.rule_single_noise_applied(ctx)
     effects.rule_shared_op_store(ctx)
@@ -74,6 +76,8 @@ def run(ctx: Ctx) -> None:
 
 KNOCKOUTS = [
     Knockout("dm-additional-noise-skips-identity", "graphiq/backends/density_matrix/compiler.py", sub_nth("        if isinstance(op, ops.OneQubitOperationBase):\n            op.noise.apply(state, n_quantum, [q_index(op.register, op.reg_type)])\n", "        if isinstance(op, ops.InputOutputOperationBase) or isinstance(op, ops.Identity):\n            pass\n        elif isinstance(op, ops.OneQubitOperationBase):\n            op.noise.apply(state, n_quantum, [q_index(op.register, op.reg_type)])\n", 0), "noise.single-applied", "Identity"),
+    Knockout("unwrap-wrapper-noise-on-the-wrong-side", "graphiq/circuit/ops.py", sub_once("                gates.insert(0, noise)\n", "                gates.append(noise)\n"), "unwrap.order", "applied after the gate"),
+    Knockout("unwrap-built-in-application-order-carrier-not-moved", "graphiq/circuit/ops.py", sub_once("        return gates[::-1]", "        return gates"), "unwrap.order", "application sequence"),
     Knockout("depolarizing-strength-clamped", NM, sub_once('        depolarizing_prob = self.noise_parameters["Depolarizing probability"]\n', '        depolarizing_prob = self.noise_parameters["Depolarizing probability"]\n        mixing_prob = np.clip(4 * depolarizing_prob / 3, 0.0, 1.0)\n'), "num.saturating-strength", "clamp active"),
     Knockout("compile-tests-the-class-for-instance", "graphiq/backends/compiler_base.py",
              sub_once("            is_controlled_op = isinstance(\n                op, ops.ControlledPairOperationBase\n            ) or isinstance(op, ops.ClassicalControlledPairOperationBase)",
